@@ -8,13 +8,13 @@ TRUSTED = "Trusted base: TLC 1.8, the TLA+ value parser (harness/vcore/tlaval.py
 
 CHECKS = {
  "C10": dict(
-   technique="TLA+ state machine (spec/LinearCache.tla) model-checked by TLC; every edge of the permissive design's state graph replayed on the real classes against an uncached twin; recorded histories validated by TLC (TraceLinearCache.tla)",
+   technique="TLA+ state machine (spec/LinearCache.tla) model-checked by TLC; every edge of the permissive design's state graph replayed on the real classes against an uncached twin; recorded histories validated by TLC (TraceLinearCache.tla); histories of Linear objects recorded while the repository's own test-suite runs are validated by the same trace specification",
    text="TLC exhausts the abstract cache life-cycle (parameter versions abstracted to current/stale, so all history lengths are covered) for the three class shapes and proves transparency of the repaired design; it also derives the failing histories of designs without invalidation. Every transition of the permissive state graph is then executed on LULinear, QRLinear, SVDLinear, NaiveLinear and OneByOneConvolution and compared with a freshly built uncached twin (outputs, log-dets, input gradients); all recorded histories are accepted by the trace specification.",
    design_ref="DESIGN.md section 4, C10",
    note="Abstraction of parameter values to versions; oracle is the uncached twin of the same tree. " + TRUSTED),
 
  "C13": dict(
-   technique="TLA+ session specification (spec/Session.tla) model-checked by TLC; every zoo model driven along edge-covering walks of its state graph; every recorded step judged by TLC trace validation (TraceSession.tla)",
+   technique="TLA+ session specification (spec/Session.tla) model-checked by TLC; every zoo model driven along edge-covering walks of its state graph; every recorded step judged by TLC trace validation (TraceSession.tla); the repository's own test-suite is a second driver (recorded by a pytest plugin, judged by the same trace specification)",
    text="Session.tla states which state-dict categories each public call may write in which mode and when a repeated call must reproduce its result; TLC checks it over all model kinds. ~75 model configurations (every transform, distribution and flow class) are driven along walks covering every edge of that graph with plain, view, non-contiguous and requires-grad inputs, and TLC decides a verdict for each recorded step (argument modified / state written in eval / undocumented write / repeat differs).",
    design_ref="DESIGN.md section 4, C13",
    note="Side effects are observed via torch.equal, tensor version counters and the state dict; inputs are fixed per session. " + TRUSTED),
@@ -30,19 +30,19 @@ CHECKS = {
    note="Function equality is sampled on probe inputs (bit-identical); configurations are those of the zoo. " + TRUSTED),
 
  "C06": dict(
-   technique="TLA+ specification of MADE construction (spec/Made.tla) exhaustively model-checked by TLC over all architectures and random degree draws; final states rebuilt as real networks with injected draws; real-generator networks validated by TLC (TraceMade.tla)",
+   technique="TLA+ specification of MADE construction (spec/Made.tla) exhaustively model-checked by TLC over all architectures and random degree draws; final states rebuilt as real networks with injected draws; real-generator networks validated by TLC (TraceMade.tla); every network the repository's test-suite constructs is validated by TraceMade.tla; spec/Assembly.tla (construction loop of MaskedAutoregressiveFlow) replayed on the real constructor",
    text="The network's dependency relation is the boolean product of the masks, so TLC's exhaustive run over every architecture up to the bound and every draw torch.randint can make decides autoregressiveness for ALL weight values. Final states are rebuilt as real networks (both copies and the mixture subclass, draws injected through torch.randint) and degrees, masks and the measured dependency pattern are compared; generic weights / ReLU / batch-norm / dropout are checked by autograd Jacobians; networks drawn with the real generator are accepted step by step by the trace specification.",
    design_ref="DESIGN.md section 4, C06",
    note="Bounded architecture sizes; exact dependency measured with all-ones weights. " + TRUSTED),
 
  "C07": dict(
-   technique="TLA+ specification of the coupling index book-keeping (spec/Coupling.tla) exhaustively model-checked by TLC over all masks; every enumerated state replayed on the seven real coupling classes (bit-level identity check, Jacobian pattern vs the specification's dependency relation, round trip)",
+   technique="TLA+ specification of the coupling index book-keeping (spec/Coupling.tla) exhaustively model-checked by TLC over all masks; every enumerated state replayed on the seven real coupling classes (bit-level identity check, Jacobian pattern vs the specification's dependency relation, round trip); mask values are rationals (units of 1/2), box-bounded elementwise transforms with the outside-the-box outcome; spec/Assembly.tla (construction loop of SimpleRealNVP) replayed on the real constructor",
    text="TLC enumerates every mask with values in {-1,0,1,2} (both sides non-empty) x 2-D/image layout x unconditional transform x direction and proves the split / conditioner-input / write-back properties. Each state is replayed on the real classes with a conditioner that mixes all identity elements, so the measured Jacobian pattern must equal the specification's relation; identity features are compared bit for bit on inputs containing -0.0; library conditioners are checked for the subset relation.",
    design_ref="DESIGN.md section 4, C07",
    note="Feature counts 2..4 (5 thorough), images of 1x2 pixels; dependency measured by autograd (perturbation for UMNN). " + TRUSTED),
 
  "C08": dict(
-   technique="TLA+ specifications of wrapper composition (spec/Compose.tla: denotation of every nesting; spec/Multiscale.tla over Tensor.tla views: shape book-keeping and coordinate routing) model-checked by TLC; every enumerated program / configuration replayed on the real wrappers",
+   technique="TLA+ specifications of wrapper composition (spec/Compose.tla: denotation of every nesting; spec/Multiscale.tla over Tensor.tla views: shape book-keeping and coordinate routing) model-checked by TLC; every enumerated program / configuration replayed on the real wrappers; nesting depth 3 over two atoms with every nesting skeleton replayed",
    text="TLC enumerates every nesting of Composite / Inverse up to depth 2 (atoms may repeat) and proves the algebraic laws of the denotation, and every multiscale configuration (rank <= 3, every split dimension, 1-3 stages, odd and even sizes) proving routing bijectivity, stage prefixes and that the inverse undoes the routing. Each state is replayed: real programs against hand-chained shared atoms (outputs and log-det sums, float64 1e-10), real multiscale transforms with prime-scaled affine stage tags against the exact value the specification's routing predicts for every coordinate, the log-det sum, the round trip and the inverse of an arbitrary flat vector.",
    design_ref="DESIGN.md section 4, C08",
    note="Bounded nesting depth / shape sizes. " + TRUSTED),
@@ -87,7 +87,7 @@ CHECKS = {
    design_ref="DESIGN.md section 4, C01",
    note="Scalar derivatives of transcendental maps are stated facts; the autograd sweep uses torch autograd as oracle and skips UMNN (numerical quadrature); BatchNorm in evaluation mode only. " + TRUSTED),
  "C02": dict(
-   technique="Exact rational TLA+ models (Spline.tla: injective on the lattice, inverse specified relationally; LinAlg.tla: W W^-1 = I) model-checked by TLC; exact images of lattice points fed to the real inverses; round trips of LinAlg states and of every zoo transform (perturbed, fresh, exactly-zero parameters)",
+   technique="Exact rational TLA+ models (Spline.tla: injective on the lattice, inverse specified relationally; LinAlg.tla: W W^-1 = I) model-checked by TLC; exact images of lattice points fed to the real inverses; round trips of LinAlg states and of every zoo transform (perturbed, fresh, exactly-zero parameters); spec/Autoreg.tla (pass-by-pass inverse of autoregressive transforms) replayed with a spy on the conditioner",
    text="The specification gives, for every lattice point x of every parameter set (including degenerate ones: equal weights, equal knot heights, locally linear cubic segments, one bin), the exact image y = F(x); the real inverse on y must return x (error scaled by the exact local derivative), a finite negated log-det, and the round trip must close. LinAlg states are replayed on the real classes with Householder vectors of different and rescaled norms. Every invertible zoo transform is round-tripped in both orders in float64 with perturbed, freshly constructed and exactly-zero parameters.",
    design_ref="DESIGN.md section 4, C02",
    note="Tolerances are the implementation's declared constants on the paths that use them; off-lattice floating-point cancellation is only sampled by the zoo sweep. " + TRUSTED),
